@@ -15,6 +15,10 @@ ASSUMPTIONS = [
     "C18 model: SchemaOps/Introspect.v - the result of the standard introspection query as JSON under the 7 boolean "
     "options of get_introspection_query, prune, type_lookup; default values appear as printed literals: the value "
     "printer is a parameter of the model and theorems (the harness passes print_ast's text on the wire)",
+    "C18_client_roundtrip_literals instantiates the literal printer/parser with Lang/Printer.pp and "
+    "Lang/Parser.parse_text EConstValue (round trip = C08_print_parse_roundtrip); both are run here against print_ast / "
+    "parse_const_value on every default value of every generated schema (block-string literals are outside the value "
+    "trees of the model and skipped); how a Python default value becomes a literal (value_to_literal) is C15/C17",
     "type references are at most 9 wrappers deep (type_depth=9 of the standard query)",
     "what introspection cannot carry is not compared after build_client_schema: resolvers, custom scalar functions, "
     "enum internal values, extensions, AST nodes",
@@ -375,6 +379,38 @@ def run(tier):
     n_schemas = 20 if quick else 36
     validated = set()
     n_model_cases = [0]
+    literals = {}   # printed text -> (wire of the literal tree, a key for the report)
+
+    def collect_literals(schema):
+        """Default-value literals of the schema (for the tie of the literal printer / parser models)."""
+        from graphql import print_ast, is_input_object_type, is_interface_type, is_object_type
+        from graphql.utilities import get_default_value_ast
+
+        def has_block(n):
+            k = n.kind
+            return (k == "string_value" and bool(n.block)) or (k == "list_value" and any(map(has_block, n.values))) \
+                or (k == "object_value" and any(has_block(f.value) for f in n.fields))
+
+        def add(a):
+            ast = get_default_value_ast(a)
+            if ast is None:
+                return
+            if has_block(ast):
+                ck.count("literal_with_block_string_skipped")
+                return
+            literals.setdefault(print_ast(ast), G.w_value(ast))
+
+        for t in schema.type_map.values():
+            if is_object_type(t) or is_interface_type(t):
+                for f in t.fields.values():
+                    for a in f.args.values():
+                        add(a)
+            elif is_input_object_type(t):
+                for a in t.fields.values():
+                    add(a)
+        for d in schema.directives:
+            for a in d.args.values():
+                add(a)
 
     def run_model(cases, meta):
         # per schema, to keep the wire data of only one schema in memory
@@ -473,6 +509,7 @@ def run(tier):
             combos = all_combos
         enc = G.encode_schema(s, all_types=True, default_text=True)
         wfull = G.w_json(full)
+        collect_literals(s)
         for ci, o in enumerate(combos):
             bits = [1 if o[k] else 0 for k in OPTS]
             key = f"{key0}:{bits}"
@@ -587,6 +624,27 @@ def run(tier):
                 ck.violation(key, f"introspection of the client schema differs from the original's: {d}", rep0)
         except Exception as e:  # noqa: BLE001
             ck.violation(key, f"introspection of the client schema raised {type(e).__name__}: {e}", rep0)
+    # ---- the literal printer / parser of the model (Lang/Printer.pp, Lang/Parser.parse_text EConstValue, the
+    #      instance of C18_client_roundtrip_literals) against print_ast / parse_const_value on every default value
+    from graphql import parse_const_value
+    texts = list(literals)
+    outs = m.run_batch([[12] + literals[t] for t in texts] + [[13] + G.w_text(t) for t in texts])
+    for j, t in enumerate(texts):
+        key = "literal:" + t
+        rep = {"relation": "literal printer/parser model", "printed": t}
+        if outs[j] != [1] + G.w_text(t):
+            got = "".join(chr(c) for c in outs[j][2:]) if outs[j][:1] == [1] else outs[j][:5]
+            ck.violation(key, f"model print_literal differs from print_ast: {got!r} vs {t!r}", rep)
+        try:
+            want = [1] + G.w_value(parse_const_value(t))
+        except Exception as e:  # noqa: BLE001
+            ck.violation(key, f"parse_const_value(print_ast(default)) raised {type(e).__name__}: {e}", rep)
+            continue
+        if outs[len(texts) + j] != want:
+            ck.violation(key, f"model parse_literal differs from parse_const_value on {t!r}",
+                         dict(rep, model=outs[len(texts) + j][:40], impl=want[:40]))
+    ck.count("default_value_literals", len(texts))
+    n_model_cases[0] += 2 * len(texts)
     ck.count("model_cases", n_model_cases[0])
     ck.extra["option_combinations_exercised"] = len(validated)
     ck.samples.append({"options": OPTS, "full_query_head": full_query[:200]})
